@@ -1,5 +1,5 @@
 #!/bin/sh
-# Mutation sanity for FX-C12-EMPTYLABELS (session 8): variations of the fix, each on a scratch worktree of /repo with
+# Mutation sanity for FX-C12-ed8ae90 (session 8): variations of the fix, each on a scratch worktree of /repo with
 # notes/fixes/c12-lru-stems-suffix-aware-empty-labels.diff applied; 96 tests must pass; ./check C12 must report a
 # VIOLATION with a failing input.   usage: sh notes/kf122-mutations.sh   (from the framework root)
 here="$(cd "$(dirname "$0")/.." && pwd)"
